@@ -29,7 +29,11 @@ C(k, xs) == [k |-> k, v |-> 0, xs |-> xs]
 (* annotations decided by a plain instance check: complex, range, UUID, date, datetime (a subclass of date), time,
    timedelta, timezone, Path, re.Pattern *)
 Plain == {"complex", "range", "uuid", "date", "datetime", "time", "timedelta", "timezone", "path", "pattern"}
-Scalars == {"none", "bool", "int", "float", "str", "bytes", "missing", "enumv", "state", "state2", "func", "cls"} \cup Plain
+(* "proto": a runtime-checkable Protocol with one method.  Conformance belongs to the INSTANCE: "pclass" is an instance of
+   a class that defines the method, "pinst" an instance of a plain class to which the method was attached as an instance
+   attribute, "phollow" another instance of that same plain class without it *)
+Scalars == {"none", "bool", "int", "float", "str", "bytes", "missing", "enumv", "state", "state2", "func", "cls",
+            "pclass", "pinst", "phollow"} \cup Plain
 Range(s) == {s[i] : i \in DOMAIN s}
 
 (* a range is a Sequence of ints: where a sequence is wanted it stands for its elements (range(3) = 0, 1, 2) *)
@@ -50,6 +54,7 @@ Conforms(a, v) ==
     [] a.k = "callable" -> v.k \in {"func", "cls"}              \* anything callable: a function, a class
     [] a.k = "type"    -> v.k = "cls"                           \* a class object
     [] a.k = "enum"    -> v.k = "enumv"
+    [] a.k = "proto"   -> v.k \in {"pclass", "pinst"}
     [] a.k = "state"   -> v.k \in {"state", "state2"}        \* state2: an instance of a subclass
     [] a.k = "lit"     -> \E i \in DOMAIN a.vs : a.vs[i].k = v.k /\ a.vs[i].v = v.v
     [] a.k = "seq"     -> v.k \in {"list", "tuple", "range"} /\ \A i \in DOMAIN El(v) : Conforms(a.xs[1], El(v)[i])
@@ -122,7 +127,8 @@ Norm(a, v) ==
 (* --------------------------- bounded term sets --------------------------- *)
 Int1 == V("int", 1)  StrA == V("str", 1)  StrBC == V("str", 2)  None == V("none", 0)  True == V("bool", 1)
 ValLeaf == {None, V("bool", 0), True, V("int", 0), Int1, V("float", 15), StrA, StrBC, V("bytes", 1),
-            V("missing", 0), V("enumv", 1), V("state", 1), V("state2", 1), V("func", 1), V("cls", 1)}
+            V("missing", 0), V("enumv", 1), V("state", 1), V("state2", 1), V("func", 1), V("cls", 1),
+            V("pclass", 1), V("pinst", 1), V("phollow", 1)}
             \cup {V(k, 1) : k \in Plain}
 Elem == {Int1, StrA, None, True}                \* what containers hold
 Keys == {StrA, StrBC, Int1}
@@ -139,7 +145,7 @@ ValDeep == {C("tuple", <<C("list", <<Int1>>), C("list", <<>>)>>), C("tuple", <<C
 Vals == ValLeaf \cup ValCont \cup (IF Depth >= 2 THEN ValDeep ELSE {})
 
 AnnLeaf == {A("none"), A("bool"), A("int"), A("float"), A("str"), A("bytes"), A("any"), A("missing"), A("enum"),
-            A("state"), [k |-> "lit", xs |-> <<>>, vs |-> <<Int1, StrA>>], A("callable"), A("type")}
+            A("state"), [k |-> "lit", xs |-> <<>>, vs |-> <<Int1, StrA>>], A("callable"), A("type"), A("proto")}
             \cup {A(k) : k \in Plain}
 Small == {A("int"), A("str"), A("none"), A("bool")}
 AnnCont == {A1(k, x) : k \in {"seq", "set", "fset", "vtuple", "alias", "flist", "pair"}, x \in Small}
@@ -148,6 +154,7 @@ AnnCont == {A1(k, x) : k \in {"seq", "set", "fset", "vtuple", "alias", "flist", 
              \cup {A2("map", k, x) : k \in {A("str"), A("int")}, x \in Small}
              \cup {A2("union", x, y) : x \in Small \cup {A("missing")}, y \in Small \cup {A("float")}}
              \cup {A2("union", A("date"), A("none")), A2("union", A("callable"), A("none")), A1("seq", A("date")),
+                   A2("union", A("proto"), A("none")),
                    A2("map", A("str"), A("path"))}
              \* unions with a parametrised container alternative (Optional[tuple[int, ...]] and the like)
              \cup {A2("union", x, y) : x \in {A1("vtuple", A("int")), A2("tuple", A("int"), A("str")), A1("fset", A("int")),
